@@ -993,6 +993,8 @@ func (p *Parser) ParseCaseStatement() (*ast.CaseStatement, error) {
 			matchExp.Operator = "=="
 			matchExp.Right = exp
 		case token.REGEX_MATCH:
+			// The prefix expression node is dropped below, keep the comments before "~"
+			SwapLeadingInfix(p.curToken, stmt.Meta)
 			exp, err := p.ParsePrefixExpression()
 			if err != nil {
 				return nil, errors.WithStack(err)
